@@ -34,7 +34,9 @@ def pure_cases(tier, seed):
     for i in range(300 if tier == "quick" else 3000):
         root = "/" + "".join(rng.choice("abc/") for _ in range(rng.randint(1, 8)))
         rel = "".join(rng.choice("ab./") for _ in range(rng.randint(1, 10)))
-        ver = "v" + str(rng.randint(0, 10 ** rng.randint(1, 12)))
+        num = str(rng.randint(0, 10 ** rng.randint(1, 12)))
+        # version strings as strftime patterns produce them: plain, dotted dates, empty, dot-led, with dashes
+        ver = rng.choice(["v" + num, "v" + num, "v2026.10.01-" + num, "", "." + num, num + "-1", "v." + num + ".", "a.b"])
         k = rng.choice([0, 0, 1, 2, 9, 10, 11, 99, 100, 1234])
         cases.append(("e%d" % n, "sp %s %s %s %d" % (hexs(root), hexs(rel), hexs(ver), k), ("sp", root, rel, ver, k)))
         n += 1
